@@ -175,7 +175,7 @@ def run_shard(sh):
                                reps={"inject": 6 if q else 30})
     if st is None: continue
     sh.count("designs"); sh.count("evaluations")
-    for k in ("register_comparisons", "ff_preedge_comparisons", "mode_runs"):
+    for k in ("register_comparisons", "ff_preedge_comparisons", "mode_runs", "runs_started_with_sim_reset"):
       sh.count(k, st[k])
     sh.count("ff_orders_observed_total", st["distinct_ff_orders"])
     if st["ff_blocks"] >= 2 and st["distinct_ff_orders"] >= 2:
